@@ -42,6 +42,7 @@ class FsControl:
         self.enabled = True  # fault plan switch
         self.faults_fired = []
         self.short_reads = False
+        self.close_returns = None  # value the spy's close() returns instead of the backend's own
         self.handles = {}  # id(file) -> (label, path, mode, n)
         self.opened = 0
         self.closed = 0
@@ -184,6 +185,10 @@ def make_spy(base_cls, ctl: FsControl):
                 del ctl.handles[id(file)]
                 ctl.closed += 1
             await ctl.pre(self, "close", None)
+            if ctl.close_returns is not None:
+                # an AbstractPathIO implementation is free to return something from close()
+                # (e.g. True for "committed"); the shipped ones return None
+                return ctl.close_returns
             return r
 
         @universal_exception
